@@ -715,6 +715,29 @@ func (x *Exec) analyzeLoops() {
 			}
 		}
 		if len(left) > 0 {
+			// first through the baseline: the same position among the same number of loops
+			if bf := loadBaseline().Funcs[x.name]; bf != nil {
+				order := x.loopsInSourceOrder()
+				var still []*LoopContract
+				for _, lc := range left {
+					done := false
+					for _, bl := range bf.Loops {
+						if bl.Anchor == lc.Anchor && bl.Total == len(order) && bl.Index < len(order) && order[bl.Index].lc == nil {
+							order[bl.Index].lc = lc
+							lc.Used++
+							done = true
+							x.note("loop contract %q matched through the baseline to loop %d of %d (%s)", lc.Anchor, bl.Index+1, bl.Total, order[bl.Index].src)
+							break
+						}
+					}
+					if !done {
+						still = append(still, lc)
+					}
+				}
+				left = still
+			}
+		}
+		if len(left) > 0 {
 			var free []*loopInfo
 			for _, h := range heads {
 				if li := x.loops[h]; li.lc == nil && li.stmt != nil {
